@@ -28,6 +28,8 @@ def make_gen(g):
         return MinStepGenerator(base_step=2.0 ** -10, step_ratio=2.0, num_steps=10)
     if g == 3:
         return MaxStepGenerator(base_step=1.0, step_ratio=1.64, num_steps=12)
+    if g == 4:
+        return MinStepGenerator(base_step=2.0 ** -13, step_ratio=2.0, num_steps=2)
     return None
 
 
